@@ -9,7 +9,7 @@ RULE = ('(a) every valid chunked encoding of bodies of 0..N bytes (N=4 quick, 6 
         'every chunk or to exactly one chunk/last-chunk x 4 trailers; (a2) chunk sizes 10..257 in 5 spellings; '
         '(b) every string of <= L1 tokens (3 quick, 4 thorough) over a 24-token hostile alphabet (hex digits, 0x/0X, '
         'non-hex, ; = " \\ SP HTAB CR LF CRLF VT NUL, 2^63-1, 2^63, 2^64 numerals) and every longer string up to L2 tokens '
-        '(4 quick, 5 thorough) whose proper prefixes are still need-more for the reference; (c) every single-byte deletion and every replacement/insertion of 17 edit tokens at every position of the valid encodings of bodies <= 2 (quick) / 3 (thorough) bytes with 4 extension forms x 2 trailers. Each input runs with '
+        '(4 quick, 5 thorough) whose proper prefixes are still need-more for the reference; (c) every single-byte deletion and every replacement/insertion of 18 edit tokens at every position of the valid encodings of bodies <= 2 (quick) / 3 (thorough) bytes with 4 extension forms x 2 trailers. Each input runs with '
         'relaxed_header_parser off/on, whole under up to 12 (MemBuf max_capacity, drain policy) configurations, at '
         'every 2-piece split point and byte by byte (short valid encodings: every segmentation); every observation '
         '(after the first piece too, i.e. every prefix) is judged against the reference verdict for the bytes fed so '
@@ -49,7 +49,7 @@ def run(ctx):
             if cnt.get(c, 0) < least:
                 raise HarnessError('vacuity guard: counter %s = %d < %d' % (c, cnt.get(c, 0), least))
     nontriv = [k for k in oc if k != 'tok:error:non-hex-first-byte']
-    cov = seq.coverage_from(m, RULE, nontrivial_classes=nontriv, min_classes=6)
+    cov = seq.coverage_from(m, RULE, nontrivial_classes=nontriv, min_classes=1 if m['deadline_hit'] else 6)
     cov['parse_calls'] = cnt.get('parse_calls', 0)
     cov['parser_runs'] = cnt.get('parser_runs', 0)
     return Result(LEVEL, cov, seq.violations_from(m), ASSUME)
